@@ -298,7 +298,7 @@ def build_cases(g, ctx):
     cases = g.cases
     P = hx(p)
     norders = len(g.orders)
-    per_order = 7 if quick else 24
+    per_order = 9 if quick else 30
     xcls = ["tiny", "small", "word", "big"]
     ncls = ["prime_small", "prime_big", "composite", "pow2", "nx", "nx_multiple", "divisor", "coprime", "one"]
     pool = {}            # order index -> list of (canonical lattice, norm, x raw, N)
@@ -394,10 +394,10 @@ def build_cases(g, ctx):
             # otherwise the C search runs through ~10^9 candidates before giving up: bounded stream only
             if gcd(n * n, nI) == gcd(n, nI):
                 g.count("gen_n_class", ncls_g + ("/coprime" if gcd(n, nI) == 1 else "/shared"))
-                cases.append(Case("id.gen %s %s %s %s 0" % (P, IL, OL, hx(n)), "gen", spec_gen(p, O, I, nI, n), dict(order=oname, n=n)))
+                cases.append(Case("id.gen %s %s %s %s 0" % (P, IL, OL, hx(n)), "gen", spec_gen(p, O, I, nI, n), dict(order=oname, n=n, IL=IL)))
             else:
                 g.count("gen_n_class", ncls_g + "/unsatisfiable(bound 3)")
-                cases.append(Case("id.gen %s %s %s %s 3" % (P, IL, OL, hx(n)), "gen_unsat", spec_flag(False, "generator_coprime (unsatisfiable gcd test)"),
+                cases.append(Case("id.gen %s %s %s %s 3" % (P, IL, OL, hx(n)), "gen_unsat", spec_flag(False, "generator_coprime: gcd(n^2, N(gen)) = gcd(n, N(I)) cannot hold for this (n, N(I)), but a generator was"),
                                   dict(order=oname, n=n)))
             ctx.case("L%d:%s:gen:%s:%d" % (g.lvl, oname, ncls_g, k))
             # product with an element of the order
@@ -414,7 +414,7 @@ def build_cases(g, ctx):
                 continue
             Ia = Q.mul_right(p, I, av)
             g.count("mul_alpha", "coprime" if gcd(na, nI) == 1 else "shared")
-            cases.append(Case("id.mul %s %s %s %s 0" % (P, IL, OL, hxs(elem_flat(al))), "mul", spec_mul(Ia, nI * na, O), dict(order=oname, alpha=al)))
+            cases.append(Case("id.mul %s %s %s %s 0" % (P, IL, OL, hxs(elem_flat(al))), "mul", spec_mul(Ia, nI * na, O), dict(order=oname, alpha=al, IL=IL)))
             # right order
             cases.append(Case("c.rord %s %s %s" % (P, IL, OL), "rord", spec_rord(p, I), dict(order=oname, I=(I, nI))))
             # pairs
@@ -491,7 +491,7 @@ def build_cases(g, ctx):
     # ---- connecting ideals between pairs of extremal orders
     pairs = [(a, b) for a in range(norders) for b in range(norders) if a != b]
     if quick:
-        pairs = [pairs[rng.below(len(pairs))] for _ in range(5)] + [(0, 1)]
+        pairs = [pairs[rng.below(len(pairs))] for _ in range(9)] + [(0, 1)]
     for a, b in pairs:
         Oa, Ob = g.orders[a][1], g.orders[b][1]
         cases.append(Case("id.connect %s %s %s" % (P, hxs(lat_flat(Oa)), hxs(lat_flat(Ob))), "connect",
@@ -668,9 +668,18 @@ def cert_lines(p, cases, couts):
             elif c.kind in ("fromprim", "mkprim", "principal", "add", "inter") and c.valid:
                 v = ints(co)
                 out.append(("id.certleft %s %s %s" % (P, hxs(lat_flat(c.meta["Oraw"])), hxs(v[:17])), "1", c))
+                out.append(("id.certnorm %s %s" % (hxs(v[:18]), hxs(lat_flat(c.meta["Oraw"]))), "1", c))
+            elif c.kind == "gen" and co.startswith("1 "):
+                out.append(("id.certgen %s %s %s %s" % (P, c.meta["IL"], hxs(lat_flat(c.meta["Oraw"])), co[2:]), "1", c))
+            elif c.kind == "mul" and co.startswith("1 "):
+                v = ints(co[2:])
+                out.append(("id.certleft %s %s %s" % (P, hxs(lat_flat(c.meta["Oraw"])), hxs(v[:17])), "1", c))
+                out.append(("id.certnorm %s %s" % (hxs(v[:18]), hxs(lat_flat(c.meta["Oraw"]))), "1", c))
+                out.append(("id.certisom %s %s %s %s" % (P, " ".join(c.meta["IL"].split()[:17]), hxs(v[:17]), hxs(elem_flat(c.meta["alpha"]))), "1", c))
             elif c.kind == "connect":
                 v = ints(co)
                 out.append(("id.certleft %s %s %s" % (P, hxs(lat_flat(c.meta["O1raw"])), hxs(v[:17])), "1", c))
+                out.append(("id.certnorm %s %s" % (hxs(v[:18]), hxs(lat_flat(c.meta["O1raw"]))), "1", c))
                 # right order of the connecting ideal, certificate = O2 itself
                 out.append(("id.certtrans %s %s %s %s" % (P, hxs(v[:17]), hxs(v[:17]), hxs(lat_flat(c.meta["O2raw"]))), "1", c))
         except (ValueError, IndexError, KeyError):
